@@ -25,14 +25,14 @@ def run(mods, fns, repo="/repo", verbose=True):
     import os, re
     if os.environ.get("PYVC_ONLY"):
         rx = re.compile(os.environ["PYVC_ONLY"])
-        E.obligations = [o for o in E.obligations if rx.search(o.name)]
+        E.all_obligations = list(E.obligations); E.obligations = [o for o in E.obligations if rx.search(o.name)]
     t0 = time.time()
     fast = bool(os.environ.get("PYVC_FAST"))
     res = solve.discharge(E, E.obligations, jobs=16, timeout_ms=int(os.environ.get("PYVC_TIMEOUT", "10000")), use_cvc5=not fast, model_phase=not fast)
     print(f"solve {time.time()-t0:.1f}s, {len(E.obligations)} instances")
     bad = 0
     for r in res:
-        if r.status != "discharged" or verbose:
+        if r.status != "discharged" or verbose or r.time > 4:
             print(f"  {r.status:11s} {r.name}  [{','.join(sorted(r.backends))}] {r.time:.2f}s x{r.instances}  {r.reason[:100] if r.status!='discharged' else ''}")
         if r.status != "discharged":
             bad += 1
@@ -51,3 +51,38 @@ def dump(E, name, path="/tmp/ob.smt2", idx=0):
     t = solve.to_smt2(prelude.all_axioms() + list(E.extra_axioms), ob.pc, ob.goal)
     open(path, "w").write(t)
     return ob
+
+
+def flatten_and(e):
+    import z3
+    if z3.is_and(e):
+        out = []
+        for c in e.children():
+            out.extend(flatten_and(c))
+        return out
+    return [e]
+
+
+def split(E, name, idx=0, timeout=8000):
+    """debug: which conjunct of a (quantified) goal is not provable?"""
+    import z3
+    from pyvc import prelude, arith
+    obs = [o for o in E.obligations if o.name.endswith(name)]
+    ob = obs[idx]
+    axioms = prelude.all_axioms() + list(E.extra_axioms) + (arith.axioms(E) if ('rmul' in E.uf or 'rdiv' in E.uf) else [])
+    goal = ob.goal
+    pre = []
+    if z3.is_quantifier(goal) and goal.is_forall():
+        vs = [z3.Const(goal.var_name(i) + "_sk", goal.var_sort(i)) for i in range(goal.num_vars())]
+        body = z3.substitute_vars(goal.body(), *reversed(vs))
+        if z3.is_implies(body):
+            pre.append(body.arg(0)); body = body.arg(1)
+        goal = body
+    for i, cj in enumerate(flatten_and(goal)):
+        s = z3.Solver(); s.set("auto_config", False); s.set("mbqi", False); s.set("case_split", 3); s.set("timeout", timeout)
+        for a in axioms: s.add(a)
+        for p in ob.pc: s.add(p)
+        for p in pre: s.add(p)
+        s.add(z3.Not(cj))
+        r = s.check()
+        print(i, r, str(cj)[:300].replace("\n", " "))
